@@ -7,6 +7,7 @@ from twisted.python import log
 from twisted.internet import defer, endpoints, task
 from twisted.application import internet
 from autobahn.twisted import websocket
+from autobahn.exception import Disconnected
 from . import _interfaces, errors
 from .util import (bytes_to_hexstr, hexstr_to_bytes, bytes_to_dict,
                    dict_to_bytes, provides)
@@ -280,7 +281,14 @@ class RendezvousConnector:
         self._debug(f"R.tx({mtype.upper()} {kwargs.get('phase', '')})")
         payload = dict_to_bytes(kwargs)
         self._timing.add("ws_send", _side=self._side, **kwargs)
-        self._ws.sendMessage(payload, False)
+        try:
+            self._ws.sendMessage(payload, False)
+        except Disconnected:
+            # the websocket is already closing (e.g. the server started the
+            # closing handshake): ws_close() is about to tell the machines
+            # that the connection is lost, and they re-send everything that
+            # was not answered on the next one
+            pass
         # might be nice to have a "debug" hook here to track all
         # messages sent to the mailbox, with timestamps
 
